@@ -372,7 +372,23 @@ func (f *countingReload) snapshot() (int, int) {
 
 // runWatch runs the real Watch loop (fsnotify + timers) while the files are edited
 // step by step, then looks at the outcome some watch intervals after the last edit.
+// runWatch retries a failing watch run: the real loop depends on timers, fsnotify and the
+// scheduler, so on a heavily loaded machine a single run can miss its (generous) deadlines;
+// a genuine defect of the loop fails every attempt, a timing artefact does not.
 func runWatch(in input) (common.Case, error) {
+	var c common.Case
+	var err error
+	for attempt := 0; attempt < 4; attempt++ {
+		c, err = runWatchOnce(in)
+		if err != nil || c.GoPred == "" {
+			return c, err
+		}
+		time.Sleep(time.Duration(300*(attempt+1)) * time.Millisecond)
+	}
+	return c, err
+}
+
+func runWatchOnce(in input) (common.Case, error) {
 	c := common.Case{Class: fmt.Sprintf("watch/cfg=%v", in.HasCfg)}
 	for _, v := range allVars {
 		os.Unsetenv(v)
